@@ -90,7 +90,7 @@ def run(tier, rep, replay=None):
 
 
 MANIFEST = {
- "text": "Codec.tla models a decoder of nested fixed / length-prefixed / count-prefixed formats that checks the remaining length before every read and is model-checked over every input up to a bound (in bounds, terminates in linear work, outcome Accepted or Rejected only), and names the mutation operator classes. The driver has an adapter for every exported decoding entry point (265 adapters: all KEM and signature schemes incl. SIKE, HPKE contexts / Receiver.Setup* / Open, groups, OPRF keys, DLEQ proofs, tkn20 keys / ciphertexts / policy strings, BLS, BLS12-381 points and field elements, Goldilocks, CSIDH/SIDH, PEM/PKIX, tss/rsa, blind RSA, Prio3 field vectors, Ascon) and applies every operator class to valid encodings - every truncation, 1/2/4-byte length-field-shaped overwrites at every offset, extensions, bit flips, degenerate strings - under recover with a 15 s deadline; TLC rejects any recorded panic or timeout. A go/ast scan of the exported API is reported next to the adapter table.",
+ "text": "Codec.tla models a decoder of nested fixed / length-prefixed / count-prefixed formats that checks the remaining length before every read and is model-checked over every input up to a bound (in bounds, terminates in linear work, outcome Accepted or Rejected only), and names the mutation operator classes. The driver has an adapter for every exported decoding entry point (265 adapters: all KEM and signature schemes incl. SIKE, HPKE contexts / Receiver.Setup* / Open, groups, OPRF keys, DLEQ proofs, tkn20 keys / ciphertexts / policy strings, BLS, BLS12-381 points and field elements, Goldilocks, CSIDH/SIDH, PEM/PKIX, tss/rsa, blind RSA, Prio3 field vectors, Ascon) and applies every operator class to valid encodings - every truncation, 1/2/4-byte length-field-shaped overwrites at every offset, extensions, bit flips, degenerate strings - under recover with a 15 s deadline; TLC rejects any recorded panic or timeout. A go/ast scan of the exported API is reported next to the adapter table. Two structure-aware classes: reshape-component (in-package recorder: a tkn20 ciphertext header re-encoded consistently around one matrix of another shape, Trace_Reshape.tla) and use-after-accept (a policy extracted from mutated bytes is printed, queried and encrypted under).",
  "note": "Exploration, not proof: structured mutation without coverage feedback; expensive entry points (pairings, RSA, FrodoKEM, SIKE) get a sampled subset per run (seed-dependent); thorough multiplies volume by 6.",
  "technique": "TLC-checked decoder model defines outcome set and mutation operator classes; exhaustive-per-offset structured mutation of valid encodings on real entry points under recover; TLC judges recorded outcomes",
 }
